@@ -6,6 +6,8 @@ K2  a 7z member above the per-member limit is neither decompressed into memory n
 K3  amplification arithmetic of the sequence-repetition sites (ODS repeat attributes, ODF
     text:s text:c, 7z number-of-files)
 K4  every LZMA/LZMA2 decompress call is output-bounded by the declared unpack size
+K5  XML parse sites refuse or bound internal-entity amplification
+K6  nested archives (as the router sees them) are never handed on, whatever the spelling
 """
 import io
 import logging
@@ -1423,7 +1425,7 @@ def k4(ctx):
     import lzma as real_lzma
     _quiet()
     sz = _sz()
-    coder = ctx.params["coder"]
+    coder = ctx.params.get("coder")
     calls = []
 
     class RecDec:
@@ -1444,12 +1446,44 @@ def k4(ctx):
         def LZMADecompressor(format=real_lzma.FORMAT_AUTO, memlimit=None, filters=None):
             return RecDec(format, memlimit, filters)
 
+    chain = ctx.params.get("chain")
     has_size = True if ctx.params.get("assume_known_size") else ctx.flag("has_unpack_size")
-    declared = ctx.fresh_int("unpack_size", 0, 2 ** 64 - 1) if has_size else None
+    if chain:
+        # a folder with several coders declares one unpack size PER CODER; nothing forces them to
+        # agree, so each is its own symbolic number
+        sizes = [ctx.fresh_int(f"unpack_size{j}", 0, 2 ** 64 - 1) for j in range(len(chain))] if has_size else []
+        declared = None
+    else:
+        declared = ctx.fresh_int("unpack_size", 0, 2 ** 64 - 1) if has_size else None
+        sizes = [declared] if has_size else []
     if ctx.params.get("assume_known_size"):
         ctx.assume(declared != UNKNOWN_SIZE)
-    sizes = [declared] if has_size else []
-    if coder == "lzma":
+    n_lzma = 1
+    if chain:
+        coders = []
+        for j, c in enumerate(chain):
+            if c == "lzma":
+                coders.append((sz.CODER_LZMA, ctx.fresh_bytes(f"props{j}", 5)))
+            elif c == "lzma2":
+                coders.append((sz.CODER_LZMA2, bytes([[0, 16, 24, 40][ctx.choice(f"prop_byte{j}", 4)]])))
+            else:
+                coders.append(({"copy": sz.CODER_COPY, "bcj": sz.CODER_BCJ}[c], None))
+        n_lzma = sum(1 for c in chain if c in ("lzma", "lzma2"))
+        folder = sz.Folder(coders=coders, unpack_sizes=list(sizes))
+        if has_size:
+            # the size the per-member guards (K1/K2) get to see for this folder: what the real
+            # listing code derives from the folder (one member, no substream sizes in the header)
+            ls = object.__new__(sz.SevenZipReader)
+            ls._folders, ls._file_sizes = [folder], []
+            ls._read_uint8 = lambda: sz.PROP_END
+            try:
+                ls._parse_substreams_info()
+            except Exception as e:
+                return ctx.fail("other-exception", exc=type(e).__name__, msg=str(e)[:100], where="listing")
+            declared = 0
+            for v in ls._file_sizes:
+                declared = declared + v
+    elif coder == "lzma":
         props = ctx.fresh_bytes("props", 5)
         folder = sz.Folder(coders=[(sz.CODER_LZMA, props)], unpack_sizes=sizes)
     elif coder == "lzma2":
@@ -1468,7 +1502,7 @@ def k4(ctx):
             return ctx.require(True, "rejected")
         except Exception as e:
             return ctx.fail("other-exception", exc=type(e).__name__, msg=str(e)[:100])
-    ctx.require(len(calls) == 1, "decoder-not-called-once", n=len(calls))
+    ctx.require(len(calls) == n_lzma, "decoder-not-called-once", n=len(calls), expected=n_lzma)
     for fmt, data, max_length in calls:
         bounds = []                       # list of (guard, bound)
         if isinstance(max_length, (int, S.SymInt)) and not isinstance(max_length, bool) \
@@ -1478,7 +1512,7 @@ def k4(ctx):
         if fmt == real_lzma.FORMAT_ALONE and ctx.perturb != "bounds_ignored":
             hdr = S._from_bytes(data[5:13], "little")
             bounds.append((hdr != UNKNOWN_SIZE, hdr))
-        info = dict(coder=coder, format=fmt, max_length=repr(max_length))
+        info = dict(coder=coder if not chain else "+".join(chain), format=fmt, max_length=repr(max_length))
         ctx.require(OR(*[g for g, _ in bounds]) if bounds else False, "decompress-output-unbounded", **info)
         if declared is not None:
             lim = declared - 1 if ctx.perturb == "declared_minus_one" else declared
@@ -1488,8 +1522,16 @@ def k4(ctx):
 
 def _k4_parts(tier):
     # 'assume_known_size': the sub-space in which the LZMA-alone header carries the declared size
-    return [{"coder": "lzma"}, {"coder": "lzma", "assume_known_size": True}, {"coder": "lzma2"},
-            {"coder": "bcj+lzma2"}]
+    parts = [{"coder": "lzma"}, {"coder": "lzma", "assume_known_size": True}, {"coder": "lzma2"},
+             {"coder": "bcj+lzma2"}]
+    # coder chains whose per-coder declared sizes are independent: every position of the LZMA-type
+    # coder among pass-through coders, and two LZMA-type coders in a row
+    chains = [[x, z] for z in ("lzma2", "lzma") for x in ("copy", "bcj")] + \
+             [[z, x] for z in ("lzma2", "lzma") for x in ("copy", "bcj")] + [["lzma2", "lzma2"], ["lzma", "lzma2"]]
+    if tier == "thorough":
+        chains += [["bcj", "copy", "lzma2"], ["copy", "lzma2", "bcj"], ["lzma2", "copy", "bcj"], ["bcj", "lzma", "copy"],
+                   ["lzma2", "bcj", "lzma"]]
+    return parts + [{"chain": c} for c in chains]
 
 
 def _k4_targets():
@@ -1576,6 +1618,89 @@ def k5_xml_entities(ctx):
     total = sum(len(t) for t in root.itertext())
     ctx.require(total <= K * len(xml), "xml-entity-amplification", site=f"{modname}.{fname}", input_bytes=len(xml),
                 text_chars=total, nesting=depth, fanout=fan)
+
+
+# =======================================================================================
+# K6  nested archives are not recursed into, however their extension is spelled
+# =======================================================================================
+
+# name suffixes the router hands to read_archive (extension table, aliases, compound extensions and
+# the MIME fallback through the platform's mimetypes tables); part 'scan' checks the list is complete
+ARCHIVE_SUFFIXES = [".zip", ".tar", ".tgz", ".tbz2", ".txz", ".7z", ".gz", ".bz2", ".xz", ".tar.gz", ".tar.bz2",
+                    ".tar.xz", ".taz", ".tz", ".tar.br", ".zip.br", ".gz.br", ".xz.br"]
+KNOWN_NESTED_MIME = "C12-nested-archive-guard-misses-mime-routed-names"
+
+
+def _routed_to_archive(name):
+    """the real router's verdict for a member name"""
+    from sharepoint2text.parsing import router
+    try:
+        return router.get_extractor(name) is _ae().read_archive
+    except Exception:
+        return False
+
+
+def _probe_archive_suffixes():
+    import mimetypes
+    from sharepoint2text.parsing import router
+    mimetypes.init()
+    cands = set(router._SUPPORTED_EXTENSIONS) | set(mimetypes.types_map) | set(mimetypes.common_types) | \
+        set(mimetypes.suffix_map) | set(mimetypes.encodings_map)
+    cands |= {a + b for a in list(cands) for b in mimetypes.encodings_map}
+    return sorted(e for e in cands if _routed_to_archive("a" + e))
+
+
+def k6_nested(ctx):
+    """one small member whose name the real router routes to read_archive, in each of the three
+    container loops: it must not be handed to an extractor (recursing multiplies the cost with every
+    level of nesting, each member staying under the per-member limit)"""
+    _quiet()
+    ae = _ae()
+    from sharepoint2text.parsing import router
+    kind = ctx.params["site"]
+    if kind == "scan":
+        missing = [e for e in _probe_archive_suffixes() if not any(e.endswith(s_) for s_ in ARCHIVE_SUFFIXES)]
+        return ctx.require(not missing, "archive-suffix-without-driver", suffixes=missing[:8])
+    # parts: the suffixes of the extension tables / those only the MIME fallback knows (a part stops
+    # after 60 counterexamples; one group must not keep the other from being explored)
+    group = {"extension": ARCHIVE_SUFFIXES[:12], "mime": ARCHIVE_SUFFIXES[12:]}.get(ctx.params.get("group"),
+                                                                                    ARCHIVE_SUFFIXES)
+    suffix = group[ctx.choice("suffix", len(group))]
+    # spelling: every letter of the suffix in either case
+    chars = []
+    for j, ch in enumerate(suffix):
+        chars.append(ch.upper() if ch.isalpha() and ctx.flag(f"upper{j}") else ch)
+    stems = ["part1", "d/part1", "Backup.2024"]
+    stem = stems[ctx.params["stem"] if "stem" in ctx.params else ctx.choice("stem", len(stems))]
+    name = stem + "".join(chars)
+    basename = os.path.basename(name)
+    ctx.assume(_routed_to_archive(basename))            # the router decides what an archive is
+    via_mime = router._file_type_from_extension(basename.lower()) is None
+    log = []
+    members = [(name, False, 10)]
+    stubs = _container_stubs(kind, log, members)
+    stubs["_get_file_extractor_cached"] = _rec_extractor(log)
+    fn = {"zip": ae._extract_from_zip_optimized, "tar": ae._extract_from_tar_optimized,
+          "7z": ae._extract_from_7z_optimized}[kind]
+    with ctx.stub(ae, **stubs):
+        try:
+            list(fn(io.BytesIO(b"\0" * 64), "x." + kind))
+        except Exception as e:
+            ctx.fail("other-exception", exc=type(e).__name__, msg=str(e)[:100])
+    extracted = any(e[0] == "extract" for e in log)
+    info = dict(site=kind, member=name, suffix=suffix, routed_by="mime-fallback" if via_mime else "extension",
+                extracted=extracted)
+    if ctx.perturb == "archives_are_documents":
+        return ctx.require(extracted, "archive-member-not-extracted", **info)
+    if via_mime and not ctx.perturb and KNOWN_NESTED_MIME in (ctx.params.get("known_active") or ()):
+        ctx.note("path-in-class-of-known-finding:" + KNOWN_NESTED_MIME)
+        return ctx.require(True, "excluded-known-class")
+    ctx.require(not extracted, "nested-archive-extracted", **info)
+
+
+def _k6_parts(tier):
+    return [{"site": s_, "stem": st, "group": g} for s_ in ("zip", "tar", "7z")
+            for st in range(2 if tier == "quick" else 3) for g in ("extension", "mime")] + [{"site": "scan"}]
 
 
 KERNELS = [
@@ -1677,7 +1802,8 @@ KERNELS = [
            k3_sites, targets=_k3_targets, strength="structure", core=False, choices=["site found by AST scan"]),
     Kernel("K4", "every LZMA / LZMA2 decompress call is output-bounded by the folder's declared unpack size",
            k4, targets=_k4_targets, parts=_k4_parts,
-           perturb=[("bounds_ignored", {"coder": "lzma2"}), ("declared_minus_one", {"coder": "lzma", "assume_known_size": True})],
+           perturb=[("bounds_ignored", {"coder": "lzma2"}), ("declared_minus_one", {"coder": "lzma", "assume_known_size": True}),
+                    ("declared_minus_one", {"chain": ["bcj", "lzma2"]})],
            stubs=["lzma as seen from sevenzip -> LZMADecompressor recording format, filters and the arguments of "
                   "decompress()", "struct.pack('<Q', symbolic) -> eight byte terms (symbolic runs)"],
            symbolic=["declared unpack size in [0, 2^64)", "the five LZMA property bytes",
@@ -1689,6 +1815,22 @@ KERNELS = [
                         "output cannot exceed what is declared"],
            outside=["dictionary memory allocated by liblzma for the declared dictionary size"],
            timeout={"quick": 100, "thorough": 600}),
+    Kernel("K6", "a member the router would hand to read_archive is not extracted from inside an archive, however its "
+                 "extension is spelled", k6_nested,
+           targets=lambda: [_ae()._should_skip_file, _ae()._extract_from_zip_optimized, _ae()._extract_from_tar_optimized,
+                            _ae()._extract_from_7z_optimized, _ae()._process_7z_files_sequential],
+           parts=_k6_parts, strength="structure", core=False,
+           perturb=[("archives_are_documents", {"site": "zip", "stem": 0, "group": "extension"})],
+           stubs=["zipfile / tarfile / SevenZipFile as seen from archive_extractor -> containers listing one 10-byte "
+                  "member", "_get_file_extractor_cached -> recording extractor; the router functions are the real ones"],
+           choices=["archive suffix (all the router routes to read_archive, incl. the MIME fallback; part 'scan' probes "
+                    "the router and the platform mimetypes tables for suffixes missing from the list)",
+                    "upper / lower case of every letter of the suffix", "stem: plain / in a sub directory / dotted",
+                    "container loop zip / tar / 7z"],
+           assumptions=["what counts as an archive is the real router's verdict (get_extractor(name) is read_archive); "
+                        "recursing into such a member is what the nested-archive guard exists to prevent"],
+           outside=["archives disguised under a document extension (content sniffing)"],
+           timeout={"quick": 100, "thorough": 300}),
     Kernel("K5", "XML parse sites refuse or bound internal-entity amplification", k5_xml_entities,
            targets=lambda: [__import__("sharepoint2text.parsing.extractors.util.zip_utils", fromlist=["x"]).read_zip_xml_root],
            strength="structure", core=False, perturb=["no_bound"],
